@@ -157,3 +157,31 @@ Example C16_sound_update_nonvacuous :
   /\ apply_gateway_update nv_object nv_object2 {| d_ss_key_same := true; d_ss_cert_same := false; d_ss_ca_same := false |} = Ok
   /\ List.length (remote_rounds all_fixes true [f_schemas nv_object; f_schemas nv_object2]) = 3%nat.
 Proof. vm_compute. repeat split; reflexivity. Qed.
+
+(* ---------- extension: the feature-gate annotation as a raw string ---------- *)
+(* for EVERY raw value of proxy.kubegateway.io/feature-gates (white space, separators, empties, unknown gates, bad
+   booleans, duplicates ...): if an object carrying it passes the whole admission decision, the gateway's own parse of
+   the same raw value succeeds and the object is applied.  [gate_of_raw] ties the object's fact to the raw value through
+   the parser predicate [gate_accepts] (component-base featuregate.Set), which the correspondence run compares with
+   the real parser on every case. *)
+Theorem C16_featuregate_annotation_sound : forall raw pick f,
+  f_gate f = gate_of_raw raw -> oracle_laws f = true -> validate pick f = VErrs [] ->
+  admit_gate raw = true /\ sync_gate raw = true /\ apply_gateway f = Ok.
+Proof. exact featuregate_annotation_sound. Qed.
+Print Assumptions C16_featuregate_annotation_sound.
+
+Theorem C16_featuregate_annotation_rejected : forall raw fixd pick f,
+  f_gate f = gate_of_raw raw -> sync_gate raw = false -> validate_gen fixd pick f <> VErrs [].
+Proof. exact featuregate_annotation_rejected. Qed.
+Print Assumptions C16_featuregate_annotation_rejected.
+
+(* non-vacuity: values the parser accepts / refuses; a blank value and a trailing ", " are refused (seed C16-g:
+   admission trimmed them), and an accepted object carrying " Tracing = true,,AllAlpha=0" is applied *)
+Example C16_featuregate_nonvacuous :
+  map gate_accepts [" Tracing = true,,AllAlpha=0"; "DenyAllRequests=false,"; "Tracing=T"]%string = [true; true; true]
+  /\ map gate_accepts [" "; "Tracing=true, "; "Tracing=true,
+"; "Tracing"; "Tracing=yes"; "Nope=true"; "=true"]%string = [false; false; false; false; false; false; false]
+  /\ (let f := nv_object in
+      f_gate f = gate_of_raw (Some " Tracing = true,,AllAlpha=0"%string) /\ validate true f = VErrs [] /\ apply_gateway f = Ok)
+  /\ sync_gate (Some " "%string) = false /\ admit_gate (Some ""%string) = true /\ admit_gate None = true.
+Proof. vm_compute. repeat split; reflexivity. Qed.
